@@ -414,6 +414,9 @@ enum Op
   Send,
   PeerSend,
   Backpressure,
+  SetMode,   // setReadMode(sid, Sync|Async|Disabled) at any point, also after the close
+  RecvSync,  // receiveSync with a small buffer and a short timeout (partial reads)
+  HandBack,  // Sync, peer data, partial receiveSync, close cause, then back to Async (HttpClient's pattern)
   Observe,
   Unobserve,
   SetData,
@@ -427,7 +430,7 @@ enum Op
 const char *opName(int o)
 {
   static const char *n[] = {"accept", "connect", "connectSync", "via", "appClose", "peerFin", "peerRst", "send", "peerSend",
-                            "backpressure", "observe", "unobserve", "setData", "race", "quiesce", "sleep", "gcWait", "stop"};
+                            "backpressure", "setMode", "recvSync", "handBack", "observe", "unobserve", "setData", "race", "quiesce", "sleep", "gcWait", "stop"};
   return o >= 0 && o < kOpMax ? n[o] : "?";
 }
 enum Target
@@ -459,6 +462,7 @@ struct LPlan
   int reconnect{0};      // 0 none; else number of reconnects issued from inside the close callback
   int reconnectTarget{0};
   bool waitBeforeStop{false}; // wait (bounded) for every definite cause before the final stop
+  bool allowRearmAfterClose{false}; // fixed reproducers of C02-2 only
   bool restart{false};        // after the stop: start() again, one accept + one connect, stop() (ids stay distinct)
   std::vector<LOp> ops;
 };
@@ -629,6 +633,8 @@ void runLifecycle(const LPlan &plan, pbt::Case &c)
   bool stopped = false;
   std::set<std::uint64_t> causeKinds;
   bool racedOne = false;
+  bool usedModes = false;
+  bool sharedPeers = false;
   bool bail = false; // harness-side problem: stop the history (never a violation)
   unsigned opsDone = 0;
 
@@ -718,7 +724,7 @@ void runLifecycle(const LPlan &plan, pbt::Case &c)
     sess.push_back(s);
   };
 
-  auto newConnect = [&](int target, bool sync, bool via, bool waitAnnounce)
+  auto newConnect = [&](int target, bool sync, bool via, bool waitAnnounce, int sharePeer = -1)
   {
     if (sess.size() >= 8) return;
     Sess s;
@@ -727,10 +733,34 @@ void runLifecycle(const LPlan &plan, pbt::Case &c)
     std::string host = "127.0.0.1";
     std::uint16_t port = 0;
     int lfd = -1;
+    // UDP: a second session towards a remote address that already has one (an accepted peer,
+    // an earlier via/connect target): same raw socket, same ip:port
+    int sharedFd = -1;
+    if (udp && sharePeer >= 0)
+      for (std::size_t i = 0; i < sess.size(); ++i)
+      {
+        const Sess &o = sess[(static_cast<std::size_t>(sharePeer) + i) % sess.size()];
+        if (o.rawFd >= 0 && (o.origin == 'A' || o.target == TListening))
+        {
+          sharedFd = o.rawFd;
+          break;
+        }
+      }
+    if (sharedFd >= 0)
+    {
+      target = s.target = TListening;
+      port = c02raw::localPort(sharedFd);
+      lfd = sharedFd;
+      sharedPeers = true;
+    }
+    else
     if (udp && (target == TBlackHole || target == TTlsGarbage || target == TTlsStall)) target = s.target = TListening;
     if (via && (target == TTlsGarbage || target == TTlsStall)) target = s.target = TListening;
     const bool tls = target == TTlsGarbage || target == TTlsStall;
-    if (target == TListening || tls)
+    if (sharedFd >= 0)
+    {
+    }
+    else if (target == TListening || tls)
     {
       lfd = udp ? bag.add(c02raw::udpBind(port)) : bag.add(c02raw::tcpListen(port, 8, peerRcvBuf));
       if (lfd < 0)
@@ -904,6 +934,37 @@ void runLifecycle(const LPlan &plan, pbt::Case &c)
     issueCause(s, Cause::Backpressure, all && !stopped && !closedAlready(s) ? true : s.definite);
   };
 
+  auto setMode = [&](Sess &s, int mode)
+  {
+    // open finding C02-2: re-arming Sync/Disabled on an id after its close. While it is listed,
+    // the shape is excluded by construction (counted), so the search continues past it.
+    if (mode != 0 && !plan.allowRearmAfterClose && pbt::isKnown("C02/data-after-close/flush-after-rearm") && log.hasClose(s.sid, 0))
+    {
+      c.label("excluded (known C02-2): re-arm of Sync/Disabled after the close");
+      return;
+    }
+    ReadMode m = mode == 0 ? ReadMode::Async : mode == 1 ? ReadMode::Sync : ReadMode::Disabled;
+    log.add(K::ModeBegin, s.sid, static_cast<std::uint64_t>(mode));
+    bool r = t->setReadMode(s.sid, m); // a Sync->Async switch flushes through onData on THIS thread
+    log.add(K::ModeEnd, s.sid, static_cast<std::uint64_t>(mode), r ? 1 : 0);
+    usedModes = true;
+  };
+  auto recvSync = [&](Sess &s, std::size_t bufLen, int timeoutMs)
+  {
+    std::uint8_t buf[16];
+    std::size_t len = std::min(bufLen, sizeof(buf));
+    auto r = t->receiveSync(s.sid, buf, len, std::chrono::milliseconds(timeoutMs));
+    // bytes handed out by receiveSync are not data EVENTS (drain-before-EOF may return them after the close)
+    log.add(K::RecvEnd, s.sid, r.isOk() ? r.value() : 0, r.isOk() ? 0 : static_cast<std::uint64_t>(r.error().code));
+    usedModes = true;
+  };
+  auto peerSendSmall = [&](Sess &s) -> bool
+  {
+    if (!udp && s.rawFd >= 0 && !s.rawClosed && s.established) return c02raw::sendAll(s.rawFd, "12345", 5, 200);
+    if (udp && s.rawFd >= 0 && s.ioraPort) return c02raw::udpSendTo(s.rawFd, s.ioraPort, "12345", 5);
+    return false;
+  };
+
   auto doStop = [&]()
   {
     if (stopped) return;
@@ -920,10 +981,10 @@ void runLifecycle(const LPlan &plan, pbt::Case &c)
     switch (op.op)
     {
     case NewAccept: newAccept(); break;
-    case NewConnect: newConnect(op.a % kTargetMax, false, false, op.b % 2); break;
+    case NewConnect: newConnect(op.a % kTargetMax, false, false, op.b % 2, udp && op.c % 4 == 3 ? op.c / 4 : -1); break;
     case NewSync: newConnect(op.a % kTargetMax, true, false, true); break;
     case NewVia:
-      if (udp) newConnect(op.a % kTargetMax, false, true, op.b % 2);
+      if (udp) newConnect(op.a % kTargetMax, false, true, op.b % 2, op.c % 2 == 1 ? op.c / 2 : -1);
       else newConnect(op.a % kTargetMax, false, false, op.b % 2);
       break;
     case AppClose:
@@ -953,6 +1014,55 @@ void runLifecycle(const LPlan &plan, pbt::Case &c)
       break;
     case Backpressure:
       if (auto *s = pick(op.a)) backpressure(*s);
+      break;
+    case SetMode:
+      if (auto *s = pick(op.a))
+        if (s->sidKnown) setMode(*s, op.b % 3);
+      break;
+    case RecvSync:
+      if (auto *s = pick(op.a))
+        if (s->sidKnown) recvSync(*s, 1 + static_cast<std::size_t>(op.b % 7), op.c % 3 == 0 ? 15 : 0);
+      break;
+    case HandBack:
+      if (auto *s = pick(op.a))
+        if (s->sidKnown)
+        {
+          const bool openAtEntry = !log.hasClose(s->sid, 0);
+          if (openAtEntry)
+          {
+            // user data with a cleanup: its invocation marks the end of the close dispatch
+            std::uint64_t tag = nextTag++;
+            payloads.push_back(Payload{tag, s->sid});
+            log.add(K::DataBegin, s->sid, tag, 1);
+            t->setSessionData(s->sid, &payloads.back(), cleanupFn);
+            log.add(K::DataEnd, s->sid, tag);
+          }
+          setMode(*s, 1);
+          bool sent = peerSendSmall(*s);
+          recvSync(*s, 2, sent && openAtEntry ? 200 : 0); // 2 of 5 bytes: proves the chunk is buffered and leaves a rest
+          switch (op.b % 4)
+          {
+          case 0: appClose(*s); break;
+          case 1: peerFin(*s); if (udp) appClose(*s); break;
+          case 2: peerRst(*s); if (udp) appClose(*s); break;
+          default: break; // no close: plain hand-back of an open session
+          }
+          if (op.b % 4 != 3 && openAtEntry && log.hasClose(s->sid, 300))
+          {
+            // wait (not judged here) until the close dispatch is provably complete: the user-data
+            // cleanup is its last step, after the handler dropped the session's read mode
+            SessionId sid = s->sid;
+            log.waitFor(
+              [&](const std::vector<c02log::Event> &v)
+              {
+                for (auto &e : v)
+                  if (e.k == K::Cleanup && e.sid == sid) return true;
+                return false;
+              },
+              1000);
+          }
+          setMode(*s, 0);
+        }
       break;
     case Observe:
       if (auto *s = pick(op.a))
@@ -1165,6 +1275,8 @@ void runLifecycle(const LPlan &plan, pbt::Case &c)
   c.label("sessions=" + std::to_string(sess.size()));
   if (openAtStop) c.label("stop with open sessions");
   if (racedOne) c.label("two causes raced on one session");
+  if (usedModes) c.label("read modes used");
+  if (sharedPeers) c.label("udp: second session to a peer address that already has one");
   if (bail) c.label("history cut short (harness)");
   {
     std::lock_guard<std::mutex> lk(log.mu);
@@ -1206,7 +1318,8 @@ LPlan genLifePlan(pbt::Src &src, bool udp)
   // weighted op table
   static const int wt[] = {NewAccept, NewAccept, NewAccept, NewAccept, NewConnect, NewConnect, NewConnect, NewConnect, NewSync,
                            NewSync, NewVia, AppClose, AppClose, AppClose, PeerFin, PeerFin, PeerRst, PeerRst, Send, Send,
-                           PeerSend, PeerSend, Backpressure, Observe, Observe, Observe, Unobserve, SetData, SetData, Race,
+                           PeerSend, PeerSend, Backpressure, SetMode, SetMode, SetMode, RecvSync, RecvSync, HandBack, HandBack,
+                           Observe, Observe, Observe, Unobserve, SetData, SetData, Race,
                            Race, Race, Quiesce, Sleep, GcWait, StopNow};
   for (auto &r : rows)
   {
@@ -1221,6 +1334,7 @@ LPlan genLifePlan(pbt::Src &src, bool udp)
       static const int tw[] = {0, 0, 0, 0, 0, 1, 1, 2, 3, 3, 4, 5};
       o.a = tw[static_cast<std::size_t>(r[1]) % 12];
     }
+    if (udp && o.op == NewSync && r[3] % 2 == 0) o.op = NewVia; // UDP: connectSync == connect; spend it on via
     if (o.op == GcWait && !p.gcCase) o.op = Sleep;
     if (o.op == StopNow && r[1] % 3 != 0) o.op = Quiesce; // stop mid-history: rare
     p.ops.push_back(o);
@@ -1308,6 +1422,55 @@ PBT_REGRESSION(restart_same_peer_udp)
   p.udp = true;
   p.restart = true;
   p.ops = {{NewAccept, 0, 0, 0}, {NewAccept, 0, 0, 0}, {PeerSend, 0, 0, 0}, {PeerSend, 1, 0, 0}};
+  runLifecycle(p, c);
+}
+// gauge with several sessions towards ONE peer address: accepted peer, then two via-connects and a
+// connect to the same ip:port; all announced, all counted, zero after the stop
+PBT_REGRESSION(gauge_second_session_same_peer_udp)
+{
+  LPlan p;
+  p.udp = true;
+  p.waitBeforeStop = true;
+  p.ops = {{NewAccept, 0, 0, 0},          {NewVia, TListening, 1, 1}, {NewVia, TListening, 1, 1}, {NewConnect, TListening, 1, 3},
+           {PeerSend, 0, 0, 0},           {AppClose, 1, 0, 0},        {Quiesce, 0, 0, 0},          {NewVia, TListening, 1, 1},
+           {AppClose, 0, 0, 0},           {Quiesce, 0, 0, 0}};
+  runLifecycle(p, c);
+}
+// hand-back switch after the close: Sync, peer data partly read, close, setReadMode(Async) -
+// the rest must not come out of onData after onClose
+PBT_REGRESSION(handback_after_close_tcp)
+{
+  LPlan p;
+  p.udp = false;
+  p.waitBeforeStop = true;
+  p.ops = {{NewAccept, 0, 0, 0}, {SetMode, 0, 1, 0}, {PeerSend, 0, 1, 0}, {RecvSync, 0, 1, 0}, {RecvSync, 0, 1, 0}, {PeerFin, 0, 0, 0},
+           {Quiesce, 0, 0, 0},   {SetMode, 0, 0, 0}, {NewAccept, 0, 0, 0}, {HandBack, 1, 0, 0}, {NewAccept, 0, 0, 0}, {HandBack, 2, 2, 0}};
+  runLifecycle(p, c);
+}
+PBT_REGRESSION(handback_after_close_udp)
+{
+  LPlan p;
+  p.udp = true;
+  p.waitBeforeStop = true;
+  p.ops = {{NewAccept, 0, 0, 0}, {HandBack, 0, 0, 0}, {NewConnect, TListening, 1, 0}, {HandBack, 1, 0, 0}};
+  runLifecycle(p, c);
+}
+// C02-2: after the close the application re-arms Sync (or Disabled) on the dead id and switches
+// back to Async: the bytes left in the tombstone buffer come out of onData after onClose
+PBT_REGRESSION(rearm_after_close_tcp)
+{
+  LPlan p;
+  p.udp = false;
+  p.allowRearmAfterClose = true;
+  p.ops = {{NewAccept, 0, 0, 0}, {HandBack, 0, 1, 0}, {SetMode, 0, 1, 0}, {SetMode, 0, 0, 0}};
+  runLifecycle(p, c);
+}
+PBT_REGRESSION(rearm_after_close_udp)
+{
+  LPlan p;
+  p.udp = true;
+  p.allowRearmAfterClose = true;
+  p.ops = {{NewAccept, 0, 0, 0}, {HandBack, 0, 0, 0}, {SetMode, 0, 2, 0}, {SetMode, 0, 0, 0}};
   runLifecycle(p, c);
 }
 // every close cause once, sequentially, TCP
